@@ -226,10 +226,12 @@ std::string diff_snapshots(const Snapshot &a, const Snapshot &b, const DiffOpts 
         if (!o.skip_data_start) DIFF_FIELD("header.dataStart", "header.dataStart", a.h.dataStart, b.h.dataStart, fmt_u)
         DIFF_FIELD("header.nbAnalogByFrame", "header.nbAnalogByFrame", a.h.nbAnalogByFrame, b.h.nbAnalogByFrame, fmt_u)
         DIFF_FIELD("header.frameRate", "header.frameRate", a.h.rate, b.h.rate, hex32)
+        if (!o.skip_reserved_words) {
         DIFF_FIELD("header.emptyBlock1", "header.emptyBlock", a.h.e1, b.h.e1, fmt_i)
         DIFF_FIELD("header.emptyBlock2", "header.emptyBlock", a.h.e2, b.h.e2, fmt_i)
         DIFF_FIELD("header.emptyBlock3", "header.emptyBlock", a.h.e3, b.h.e3, fmt_i)
         DIFF_FIELD("header.emptyBlock4", "header.emptyBlock", a.h.e4, b.h.e4, fmt_i)
+        }
         DIFF_FIELD("header.keyLabelPresent", "header.keyLabelPresent", a.h.keyLabelPresent, b.h.keyLabelPresent, fmt_u)
         DIFF_FIELD("header.firstBlockKeyLabel", "header.firstBlockKeyLabel", a.h.firstBlockKeyLabel, b.h.firstBlockKeyLabel, fmt_u)
         DIFF_FIELD("header.fourCharPresent", "header.fourCharPresent", a.h.fourChar, b.h.fourChar, fmt_u)
